@@ -12,6 +12,15 @@ NOT_APPLICABLE = {
            "a bounded-N result would say nothing about the N-independence that is the point",
 }
 
+LEVEL_TEXT = {
+    "model_checking": "bounded symbolic execution of the real templates (every path inside the stated bounds enumerated by fork-and-replay, one z3 "
+                      "query per branch); every obligation discharged by z3 on every path (states = paths, transitions = decisions); models are "
+                      "replayed through the real code with the native numeric type; sample paths are validated concretely on every run. The right "
+                      "level for a property quantified over all inputs of a numeric template library: exhaustive inside small sizes, nothing claimed outside.",
+    "other": "same machinery as the model_checking checks, but part of the property rests on an assumed contract that is not encoded (see level_note)",
+    "proof": "induction step decided by SMT for unbounded (64-bit) values",
+}
+
 checks = []
 na = []
 for pid in ALL:
@@ -26,10 +35,11 @@ for pid in ALL:
             "engine": p.get("engine", "route-S"),
             "level_claimed": {
                 "category": p.get("level", "model_checking"),
-                "text": p.get("level_text", ""),
+                "text": p.get("level_text") or LEVEL_TEXT.get(p.get("level", "model_checking"), ""),
                 "design_ref": "DESIGN.md section 3, " + pid,
             },
-            "level_note": p.get("level_note", ""),
+            "level_note": p.get("level_note") or ("bounds: " + str(p.get("bounds", {}).get("quick", p.get("bounds", ""))) + " | outside: " + str(p.get("outside", ""))
+                                                  + " | assumes: " + "; ".join(p.get("assumptions", [])[:4])),
             "technique": p.get("technique", "symbolic execution of the real C++ templates (T = sym::real, z3 terms), "
                                             "fork-by-replay path enumeration, z3 verdict per obligation within stated bounds"),
         })
